@@ -206,4 +206,96 @@ def jobs(prog, tier):
     for (N, kind) in ((16, 'Aes128Gcm'), (32, 'Aes256Gcm'), (32, 'ChaCha20Poly1305'), (16, 'Aead2022Blake3Aes128Gcm'), (32, 'Aead2022Blake3Aes256Gcm'), (32, 'Aead2022Blake3ChaCha20Poly1305')):
         for mode in ('Client', 'Server'):
             js.append(('ss tcp encoder[N=%d,%s,%s]' % (N, kind, mode), make_ss_encoder_job(N, kind, mode), 900))
+    for (N, kind) in ((16, 'Aead2022Blake3Aes128Gcm'), (32, 'Aead2022Blake3Aes256Gcm')):
+        for nkeys in (1, 2, 3):
+            js.append(('ss2022 identity headers[N=%d,%d identity keys]' % (N, nkeys), make_eih_job(N, kind, nkeys), 300))
     return js
+
+
+# --------------------------------------------------------------------------- Shadowsocks 2022 identity headers (SIP023)
+def make_eih_job(N, kind, nkeys):
+    """aead_2022::tcp::with_eih for a chain of `nkeys` identity keys followed by the user key: header i must be
+    AES-ECB(identity_subkey(iPSK_i, salt), BLAKE3(next key)[0..16]), in order, and nothing else is written"""
+    def job(ctx):
+        prog = ctx.prog
+        ex = ctx.new_exec(unroll=nkeys + 3)
+        ex.const_generics = {'N': N}
+        fn = prog.find_fn(r'aead_2022::tcp::with_eih$')
+        derive, hashes, ecbs = [], [], []
+
+        def concat(ex_, p, m, a, fu, fr):
+            lst = ex_.deref_all(p.st, a[0]) if isinstance(a[0], Ref) else a[0]
+            arr, total = z3.K(BV64, bvv(0, 8)), bv64(0)
+            from ..engine import copy_into
+            for it in lst.items:
+                ia, io, il = ex_.bytes_view(p.st, it)
+                arr = copy_into(arr, total, ia, io, il)
+                total = z3.simplify(total + il)
+            return one(Buf('vec', arr, bv64(0), total))
+
+        def derive_key(ex_, p, m, a, fu, fr):
+            ma, mo, ml = ex_.bytes_view(p.st, a[1])
+            out = fresh_bytes('idsubkey')
+            derive.append((out, ma, mo, ml))
+            return one(Arr(out, 'u8', 32))
+
+        def b3hash(ex_, p, m, a, fu, fr):
+            ia, io, il = ex_.bytes_view(p.st, a[0])
+            out = fresh_bytes('b3hash')
+            hashes.append((out, ia, io, il))
+            return one(Agg('struct', (Arr(out, 'u8', 32),), 'Hash'))
+
+        def ecb(ex_, p, m, a, fu, fr):
+            ka, ko, kl = ex_.bytes_view(p.st, a[0])
+            s = ex_.as_sref(p.st, a[1])
+            ba, bo, bl = ex_.bytes_view(p.st, s)
+            out = fresh_bytes('eih')
+            ent = (ka, ko, [z3.Select(ba, bo + bv64(i)) for i in range(16)], out)
+
+            def app(q):
+                ex_.bytes_fill(q.st, s, out, bv64(0), bv64(16))
+                q.ghost.setdefault('eih', []).append(ent)
+            return one(U(), apply=app)
+        crypto.install(ex)
+        ex.overrides[:0] = [(re.compile(r'^std::slice::<impl \[&\[u8\]\]>::concat::<u8>$'), concat), (re.compile(r'^(?:blake3::)?derive_key$'), derive_key),
+                         (re.compile(r'^(?:blake3::)?hash$'), b3hash), (re.compile(r'Aes(128|256)EcbNoPadding::encrypt$'), ecb)]
+        key = symarr('userkey', N)
+        iks = [symarr('ipsk%d' % i, N) for i in range(nkeys)]
+        salt = symarr('salt', N)
+        dst = Buf('bytesmut', fresh_bytes('dst'), bv64(0), bv64(0))
+        st0 = {'#kind': cipher_kind(kind), '#key': key, '#iks': List(tuple(iks)), '#salt': salt, '#dst': dst}
+        ex.inputs = {'userkey': key, 'salt': salt}
+        ex.inputs.update({'ipsk%d' % i: iks[i] for i in range(nkeys)})
+        paths = ex.run(fn, [Ref('#kind'), Ref('#key'), Ref('#iks'), Ref('#salt'), Ref('#dst')], [], st0=st0)
+        ctx.absorb(ex, paths)
+        site = fn.name + '@headers'
+
+        def rp(m):
+            return {'entry': 'eih_chain', 'N': N, 'kind': kind, 'nkeys': nkeys}
+        done = 0
+        chain = iks + [key]
+        for p in paths:
+            if p.status != 'return':
+                continue
+            done += 1
+            got = p.ghost.get('eih', [])
+            ctx.prove(ex, p, T if len(got) == nkeys else F, '%d identity headers are written for a chain of %d identity keys' % (len(got), nkeys), site, replay=rp)
+            out = p.st['#dst']
+            ctx.prove(ex, p, out.len == 16 * nkeys, 'identity headers occupy %d x 16 bytes' % nkeys, site, replay=rp)
+            for i, (ka, ko, block, outarr) in enumerate(got[:nkeys]):
+                # key of header i: derive_key("... identity subkey", iPSK_i || salt)
+                dk = [d for d in derive if z3.eq(d[0], ka)]
+                cond = F
+                if dk:
+                    _o, ma, mo, ml = dk[0]
+                    cond = z3.And(ml == 2 * N, *([z3.Select(ma, mo + bv64(j)) == z3.Select(iks[i].arr, bv64(j)) for j in range(N)] + [z3.Select(ma, mo + bv64(N + j)) == z3.Select(salt.arr, bv64(j)) for j in range(N)]))
+                ctx.prove(ex, p, cond, 'identity header %d is not encrypted under the identity sub-key of identity key %d (BLAKE3 derive_key of iPSK_%d || salt)' % (i, i, i), site, replay=rp)
+                # plaintext of header i: first 16 bytes of BLAKE3(next key in the chain)
+                hk = F
+                for (ho, ia, io, il) in hashes:
+                    hk = z3.Or(hk, z3.And(il == N, *([z3.Select(ia, io + bv64(j)) == z3.Select(chain[i + 1].arr, bv64(j)) for j in range(N)] + [block[j] == z3.Select(ho, bv64(j)) for j in range(16)])))
+                ctx.prove(ex, p, hk, 'identity header %d does not carry the first 16 bytes of BLAKE3(key %d of the chain)' % (i, i + 1), site, replay=rp)
+                ctx.prove(ex, p, z3.And(*[z3.Select(out.arr, out.off + bv64(16 * i + j)) == z3.Select(outarr, bv64(j)) for j in range(16)]), 'identity header %d is not written at offset %d' % (i, 16 * i), site, replay=rp)
+        ctx.out.vacuity = [('with_eih returns', done > 0)]
+        ctx.out.samples.append({'function': fn.name, 'identity_keys': nkeys, 'cipher': kind})
+    return job
